@@ -23,9 +23,14 @@ GEOMS = {
     "rect": '<rect x="22" y="28" width="52" height="38"{a}/>',
     "circle": '<circle cx="50" cy="48" r="27"{a}/>',
     "line": '<line x1="18" y1="25" x2="80" y2="70"{a}/>',
+    # basic shapes with sharp corners (they are rewritten to paths before stroking: every stroke property must come along)
+    "spikepoly": '<polygon points="30,82 50,17 60,82"{a}/>',
+    "spikeline": '<polyline points="30,82 50,17 60,82"{a}/>',
 }
 DASHES = [("none", 0), ("10", 0), ("10", 7), ("10 5", 0), ("10 5", -3), ("10 5 2", 0), ("10 5 2", 7), ("10,5,2", -3), ("0 12", 0), ("0 12", 5), ("6 0 0 10", 0), ("6 0 4 10", 3)]
 ZERO_DASHES = [("0 12", 0), ("6 0 0 10", 0), ("6 0 4 10", 3)]
+# the same numbers in the other spellings the number grammar allows (exponents, leading '+' / '.', mixed separators)
+FORMAT_DASHES = [("1e1 5", 0), ("25e-1 75e-1", 0), (".5e1,1E1", 2), ("+10 +5", 0), ("10 , 5", 0), ("1.0e+1 0.5e1 2", 7)]
 TRANSFORMS = [None, "scale(1.5,.6)", "rotate(30) translate(12,-18)"]
 WHERE = ["attr", "style", "group", "root"]
 
@@ -77,8 +82,11 @@ def all_cases(tier):
             if dash != "none" and geom in ("rect", "line") and where != "attr":
                 continue
             yield (geom, 10, cap, join, 4, dash, off, tf, where, fill, tr)
-        for geom, ml, join in itertools.product(("polyline", "triangle", "spike"), (1, 10), ("miter",)):
+        for geom, ml, join in itertools.product(("polyline", "triangle", "spike", "spikepoly", "spikeline", "rect"), (1, 10), ("miter",)):
             yield (geom, 10, "butt", join, ml, "none", 0, None, "attr", "none", False)
+            if geom in ("spikepoly", "spikeline", "rect"):
+                yield (geom, 10, "butt", join, ml, "none", 0, None, "group", "orange", False)
+                yield (geom, 4, "square", join, ml, "none", 0, None, "style", "none", False)
         for geom in GEOMS:
             yield (geom, 4, "round", "round", 4, "10 5", 0, None, "attr", "orange", False)
         # stroke-width 0: nothing is stroked (SVG 11.4: "a zero value causes no stroke to be painted"), whatever the other properties say
@@ -86,6 +94,8 @@ def all_cases(tier):
             if cap != "butt" and where != "attr":
                 continue
             yield (geom, 0, cap, join, 4, dash, off, None, where, fill, False)
+        for geom, cap, (dash, off), where in itertools.product(("polyline", "line", "circle"), ("butt", "square"), FORMAT_DASHES, ("attr", "style", "group")):
+            yield (geom, 10 if cap == "butt" else 4, cap, "round", 4, dash, off, None, where, "none", False)
         # dash arrays with zero entries: a zero dash is a dot under round / square caps and nothing under butt caps; a zero gap joins its neighbours
         for geom, cap, (dash, off), fill in itertools.product(("line", "polyline", "rect", "circle"), ("butt", "round", "square"), ZERO_DASHES, ("none", "orange")):
             if geom in GEOMS:
@@ -205,7 +215,7 @@ def cases(tier, seed):
 def run(run):
     run.rule = (
         "E2 + R3 three-valued strokes: geometry {open polyline with a sharp corner, closed triangle, two-subpath path, cubic S-curve, rect, circle, line} x stroke-width {0 (no stroke at all), 4, 10} x linecap 3 x linejoin 3 "
-        "x miterlimit {1,4,10} x dasharray {none, '10' (odd), '10 5', '10 5 2' (odd)} with offsets {0, 7, -3}, arrays with zero entries {'0 12', '6 0 0 10', '6 0 4 10'} (zero dash = dot under round/square caps, nothing under butt; zero gap joins its neighbours) x outer transform {none, non-uniform scale, rotate.translate} x where the stroke "
+        "x miterlimit {1,4,10} x dasharray {none, '10' (odd), '10 5', '10 5 2' (odd)} with offsets {0, 7, -3}, the same values in other number spellings (exponents, leading + or ., mixed separators), arrays with zero entries {'0 12', '6 0 0 10', '6 0 4 10'} (zero dash = dot under round/square caps, nothing under butt; zero gap joins its neighbours) x outer transform {none, non-uniform scale, rotate.translate} x where the stroke "
         "properties are set {own attribute, own style, inherited from group, inherited from root} x fill {none, colour} x {opaque, fill-opacity .5 + stroke-opacity .5} (quick: width 10, miterlimit 4, "
         "3 dash settings). Oracle: at every point the reference classifies definitely inside / outside the ideal stroke region (delta = 0.5 user units in the shape's own coordinate system), "
         "the output shows the stroke paint directly above the fill with the right alphas; undecided points (caps, joins, dash ends, within delta of the outline) are skipped. "
